@@ -145,8 +145,9 @@ Proof. exact removed_are_markers_lemma. Qed.
 Print Assumptions removed_are_markers.
 
 (* 11. ... and the same for placeholders: the spans removed / replaced are exactly the
-       <link name="CSS_PLACEHOLDER"[ data-djc-css-XXXXXX=""]( data-djc-id-XXXXXX="")*[/]>  and
-       <script name="JS_PLACEHOLDER"[ data-djc-css-XXXXXX=""]( data-djc-id-XXXXXX="")*></script>  spans, leftmost-first. *)
+       <link name="CSS_PLACEHOLDER"( data-djc-(id|css)-XXXXXX="")*[/]>  and
+       <script name="JS_PLACEHOLDER"( data-djc-(id|css)-XXXXXX="")*></script>  spans (id and css attributes in any order
+       and number, the grammar of the source since fix be574c3), leftmost-first. *)
 Theorem removed_are_placeholders : forall t,
   exists l, parts_of is_placeholder t l /\ erase_ph t = lits l /\ ph_tokens t = l.
 Proof. exact removed_are_placeholders_lemma. Qed.
@@ -162,15 +163,24 @@ Proof.
 Qed.
 
 Example placeholder_grammar_inhabited :
-  is_placeholder (s2n "<link name=""CSS_PLACEHOLDER"" data-djc-id-a1b2c3=""""/>") KCss /\
+  is_placeholder (s2n "<link name=""CSS_PLACEHOLDER"" data-djc-id-a1b2c3="""" data-djc-css-99914b="""" data-djc-id-x_Y9z0=""""/>") KCss /\
   is_placeholder (s2n "<script name=""JS_PLACEHOLDER""></script>") KJs.
 Proof.
   split.
-  - exists [], (s2n " data-djc-id-a1b2c3=""""" ++ []). split; [now left|]. split.
-    + constructor; [|constructor]. exists (s2n "a1b2c3"). repeat split. repeat constructor.
+  - exists (s2n " data-djc-id-a1b2c3=""""" ++ s2n " data-djc-css-99914b=""""" ++ s2n " data-djc-id-x_Y9z0=""""" ++ []). split.
+    + constructor; [left|constructor; [right|constructor; [left|constructor]]].
+      * exists (s2n "a1b2c3"). repeat split. repeat constructor.
+      * exists (s2n "99914b"). repeat split. repeat constructor.
+      * exists (s2n "x_Y9z0"). repeat split. repeat constructor.
     + exists [47%N]. split; [now right|reflexivity].
-  - exists [], []. split; [now left|]. split; [constructor|reflexivity].
+  - exists []. split; [constructor|reflexivity].
 Qed.
+
+(* ... and the matcher finds such a placeholder (css attribute between two id attributes) in a text *)
+Example placeholder_mixed_attributes :
+  ph_tokens (s2n "a<script name=""JS_PLACEHOLDER"" data-djc-id-a1b2c3="""" data-djc-css-99914b="""" data-djc-id-x_Y9z0=""""></script>b")
+  = [inl 97%N; inr KJs; inl 98%N].
+Proof. vm_compute. reflexivity. Qed.
 
 (* a realistic page: CSS at its placeholder, JS before </body > (whitespace variant), marker removed *)
 Example realistic_page :
